@@ -1142,7 +1142,7 @@ def c13(case, obs, crash, tables):
     # F ops: flat view = concatenation of the flows of the non-error packets of the twin B op
     bp = {}
     for (op, o) in zip(ops, obs):
-        bp.setdefault((op[1], op[2]), {})[op[0]] = o
+        bp.setdefault(op[2], {})[op[0]] = o
     for key, d in bp.items():
         if "B" in d and "F" in d:
             C = get(d["B"], "C")
